@@ -4,7 +4,7 @@ C18 lemmas, layer 8: `finish_delete_update` on top of the walk — the rebased t
 LATEST fragments, and the visible rows at the affected addresses are the same rows in the version read and in the latest one.
 -/
 namespace LanceModel.C18
-open LanceModel.Table LanceModel.C17 List
+open LanceModel.Table LanceModel.C17Base List
 
 /-! ### pointwise lemmas -/
 
